@@ -85,6 +85,44 @@ func structLitsVia(p *Prog, fn *ssa.Function, match func(types.Type) bool) []map
 	return out
 }
 
+// isLiteralConstructor: fn's every return is the one literal of the matching type it builds (its
+// fields are judged at the call sites, see structLitsVia).
+func isLiteralConstructor(p *Prog, fn *ssa.Function, match func(types.Type) bool) bool {
+	if fn == nil || fn.Blocks == nil || fn.Signature.Results().Len() != 1 || fn.Signature.Recv() != nil {
+		return false
+	}
+	rt := fn.Signature.Results().At(0).Type()
+	if pt, ok := rt.Underlying().(*types.Pointer); ok {
+		rt = pt.Elem()
+	}
+	if !match(rt) {
+		return false
+	}
+	lits := structLits(fn, match)
+	if len(lits) != 1 {
+		return false
+	}
+	al, _ := lits[0]["\x00pos"].(*ssa.Alloc)
+	only := true
+	eachInstr(fn, func(in ssa.Instruction) {
+		ret, ok := in.(*ssa.Return)
+		if !ok {
+			return
+		}
+		for _, o := range origins(ret.Results[0]) {
+			if o == ssa.Value(al) {
+				continue
+			}
+			if ld, ok := o.(*ssa.UnOp); ok && ld.X == ssa.Value(al) {
+				continue
+			}
+			only = false
+		}
+	})
+	sites, onlyStatic := p.staticCallSites(fn)
+	return only && onlyStatic && len(sites) > 0
+}
+
 // structLits returns, for every local/heap literal of struct type t built in fn,
 // the values stored into its fields.
 func structLits(fn *ssa.Function, match func(types.Type) bool) []map[string]ssa.Value {
@@ -454,7 +492,8 @@ func sessionSelection(p *Prog, r *Report, rule string) {
 	}
 	var cb []string
 	hs := 0
-	eachCall(connect, func(c ssa.CallInstruction) {
+	fam := privateHelpersOf(p, connect)
+	eachCallIn(fam, func(c ssa.CallInstruction) {
 		if !callIsMethod(c, "proxycore", "ClientConn", "Handshake") {
 			return
 		}
@@ -498,7 +537,7 @@ func sessionSelection(p *Prog, r *Report, rule string) {
 	}
 	// version check after negotiation
 	verChecked := false
-	eachInstr(connect, func(in ssa.Instruction) {
+	eachInstrIn(fam, func(in ssa.Instruction) {
 		if bo, ok := in.(*ssa.BinOp); ok && bo.Op == token.NEQ {
 			if cfgPath(fieldPath(bo.Y), "Version") || cfgPath(fieldPath(bo.X), "Version") {
 				verChecked = true
@@ -571,6 +610,12 @@ func poolUse(p *Prog, r *Report, rule string) {
 		}
 		return nil
 	}
+	// (phases of connect that live in private helpers are looked through)
+	inFam := map[*ssa.Function]bool{}
+	for _, h := range privateHelpersOf(p, connect) {
+		inFam[h] = h != connect
+	}
+	s.Inline = func(f *ssa.Function) bool { return inFam[f] }
 	outs := s.Run(connect, newState())
 	r.count("sim_states", s.Nodes)
 	var bad []string
